@@ -8,7 +8,7 @@ W=/tmp/tryseed-$$
 V=/tmp/vseed
 unset GOTOOLCHAIN GOSUMDB; export GOFLAGS=-mod=mod GOPROXY=off
 HEAD=$(git -C /verif rev-parse HEAD)
-if [ ! -d $V ]; then git -C /verif worktree add -q --detach $V $HEAD || exit 2; else git -C $V checkout -q --detach $HEAD || exit 2; fi
+if [ ! -d $V ]; then git -C /verif worktree add -q --detach $V $HEAD || exit 2; else git -C $V checkout -q -- . ; git -C $V checkout -q --detach $HEAD || exit 2; fi
 git -C /repo worktree add -q $W HEAD || exit 2
 if ! git -C $W apply "$D/patch.diff"; then echo "PATCH DOES NOT APPLY"; git -C /repo worktree remove --force $W; exit 2; fi
 (cd $W && go build ./... ) || { echo "BUILD FAILS"; git -C /repo worktree remove --force $W; exit 2; }
